@@ -63,7 +63,7 @@ let print_api_state op (a : api) =
   let zi z = BZ.to_string (z_of_coqz z) in
   Printf.printf "R %s OK rv=0 qstatus=%s factorok=%d cache=%d" op (zi a.a_qstatus) (if a.a_factorok then 1 else 0) (match a.a_cache with Some _ -> 1 | None -> 0);
   (match a.a_cache with Some c -> Printf.printf " cache_dims=%d,%d" (List.length c.ca_x) (List.length c.ca_pi) | None -> ());
-  (match a.a_basis with Some b -> Printf.printf " basis=%d,%d" (List.length b.ba_c) (List.length b.ba_r) | None -> print_string " basis=-");
+  (match a.a_basis with Some b -> Printf.printf " basis=%d,%d rownorms=%d" (List.length b.ba_c) (List.length b.ba_r) (if a.a_rn then 1 else 0) | None -> print_string " basis=-");
   print_newline ()
 
 (* L2 layer (C06): per handle, the concrete column store (Store.Matrix) replayed next to the reference model.
@@ -242,14 +242,15 @@ let exec (toks : string list) =
                 (print_q a.pa_maxtime) (print_q a.pa_ulim) (print_q a.pa_llim))
          | _ -> print_endline "R Q NA")
       | "SOLVE" ->
-        (* SOLVE h PRIMAL|DUAL ORACLE <status> <cstat> <rstat> PI <pi...> : the real solver's answer is the oracle of the Api model *)
+        (* SOLVE h PRIMAL|DUAL ORACLE <status> <cstat> <rstat> RN <0|1> PI <pi...> : the real solver's answer is the oracle of the Api model
+           (RN: the basis grabbed after the solve carries row norms) *)
         let h = handle (tk ()) in
         let w = tk () in
         (match Hashtbl.find_opt ast h, w with
          | Some a, ("PRIMAL" | "DUAL") ->
            (match !cur with
-            | "ORACLE" :: stt :: cs :: rs :: "PI" :: pis ->
-              let ans = { an_status = z_of_tok stt; an_basis = mk_basis cs rs; an_sol = mk_cache a.a_p (List.map q_of_string pis) } in
+            | "ORACLE" :: stt :: cs :: rs :: "RN" :: rn :: "PI" :: pis ->
+              let ans = { an_status = z_of_tok stt; an_basis = mk_basis cs rs; an_sol = mk_cache a.a_p (List.map q_of_string pis); an_rn = (rn = "1") } in
               let (a', err) = api_solve a (w = "DUAL") ans in
               Hashtbl.replace ast h a';
               print_endline (if err then "R SOLVE ERR" else "R SOLVE OK rv=0")
@@ -263,13 +264,14 @@ let exec (toks : string list) =
          | None -> print_endline "R MLOADBASIS SKIP nohandle")
       | "SYNC" ->
         (* adopt the observed state after a call the Api model does not predict (QSexact_solver):
-           SYNC h <qstatus> <factorok> <cache 0|1> <cstat|-|none> <rstat> PI <pi...> *)
+           SYNC h <qstatus> <factorok> <cache 0|1> <cstat|-|none> <rstat> RN <0|1> PI <pi...> *)
         let h = handle (tk ()) in let qs_ = tk_z () in let f = tk_int () in let c = tk_int () in let cs = tk () in let rs = tk () in
+        let rn = (match !cur with "RN" :: r :: rest -> cur := rest; r = "1" | _ -> false) in
         let pis = (match !cur with "PI" :: r -> List.map q_of_string r | _ -> []) in
         (match Hashtbl.find_opt ast h with
          | Some a ->
            Hashtbl.replace ast h { a_p = a.a_p; a_basis = (if cs = "none" then None else Some (mk_basis cs rs));
-                                   a_cache = (if c = 1 then Some (mk_cache a.a_p pis) else None); a_qstatus = qs_; a_factorok = (f = 1) };
+                                   a_cache = (if c = 1 then Some (mk_cache a.a_p pis) else None); a_qstatus = qs_; a_factorok = (f = 1); a_rn = rn };
            print_endline "R SYNC OK rv=0"
          | None -> print_endline "R SYNC SKIP nohandle")
       | "STATE" ->
